@@ -187,10 +187,6 @@ def run(rep):
                           f'{"overrides.constants()" if uses else "Default::default()" if dflt else "?"}; the map must be passed through exactly when the module has overrides',
                           ok_detail=f'param={has_param}, constants={"overrides.constants()" if uses else "Default::default()"}')
     rep.floor('entry helper templates (vertex + fragment)', n_h, 2)
-    for anchor, label in (('pub fn vertex_state <', 'vertex_state'), ('pub fn fragment_state <', 'fragment_state')):
-        ts = []
-        for q2, v in ogp.summaries.items():
-            ts += [t for t in E.find_templates(v, lambda t: t[3] == q2 and anchor in E.tmpl_text(t))]
-        okf = bool(ts) and 'compilation_options : wgpu :: PipelineCompilationOptions { constants : & entry . constants , .. Default :: default ( ) }' in E.tmpl_text(ts[0])
-        rep.check(okf, 'C12.state-forwarding', label, where, f'{label} does not forward `&entry.constants` as the pipeline constants', ok_detail='constants: &entry.constants')
+    from common import include
+    include(rep, 'c14', ('C14.state-forwarding',), 'state-forwarding')
     rep.analysed = {'function': q, 'template': ot[1], 'helpers': n_h}
